@@ -146,7 +146,17 @@ class Inductor(Entity):
         self._last_arrival_time = now
 
         if self._can_forward(now):
-            return self._forward(event, now)
+            if self._queue.is_empty():
+                return self._forward(event, now)
+            # Older requests are still buffered: forward the oldest one and
+            # buffer the new arrival behind the others, so that requests
+            # leave in arrival order.
+            oldest = self._queue.pop()
+            if oldest is None:
+                raise RuntimeError("Queue reported non-empty but pop() returned None")
+            self._queue.push(event)
+            self._queued += 1
+            return self._forward(oldest, now) + self._ensure_poll_scheduled(now)
 
         # Queue the event
         if self._queue.push(event):
